@@ -414,7 +414,4 @@ TypeOK ==
   /\ \A c \in Clients : pc[c] \in {"idle", "flush", "pm_init", "pm_put", "pn_grab", "pn_init", "pn_put"}
   /\ pushed <= MaxPush
 
-\* ---- spec -> impl: states of `-simulate` behaviours (one line per state of the chosen path)
-SimEmit == PrintT("SIM " \o ToJson([lvl |-> TLCGet("level"), last |-> last, store |-> Compact(store),
-                                     pcs |-> [c \in Clients |-> pc[c]], locs |-> [c \in Clients |-> loc[c]]]))
 =============================================================================
